@@ -1,7 +1,206 @@
-//! C02 (to be filled in)
+//! C02 — exit 0 implies the destination tree mirrors the selected source tree (cp's mapping rule)
+
 use super::*;
-pub fn run(_ctx: &Ctx) -> Report {
-    let mut r = Report::new("model_checking", "not implemented");
-    r.machinery_errors.push("C02 not implemented yet".into());
-    r
+use crate::explore::Judge;
+use crate::scen::Entry;
+
+pub fn judge(w: &Worker, scen: &Scenario, ex: &Exec) -> Judgement {
+    let exp = model::expect(scen);
+    if exp.reject.is_some() {
+        // rejection classes are C16's business
+        return simple_judge(vec![], ex, false);
+    }
+    let mut v = judge_exit0_tree(w, scen, ex, &exp, Level::Content);
+    v.extend(model::untouched(&exp, &ex.before, &ex.snap));
+    v.truncate(8);
+    simple_judge(v, ex, exit0(ex))
+}
+
+/// source components: (top-level name, is_dir, entries)
+fn components(thorough: bool) -> Vec<(&'static str, bool, Vec<Entry>)> {
+    let mut v = vec![
+        ("a", false, vec![Entry::file("a", "content of a")]),
+        ("b c", false, vec![Entry::file("b c", "content of b c")]),
+        ("\\xc3\\xbc", false, vec![Entry::file("\\xc3\\xbc", "content of u-umlaut")]),
+        (".h", false, vec![Entry::file(".h", "hidden")]),
+        ("s", true, vec![Entry::dir("s"), Entry::file("s/a", "s/a"), Entry::file("s/b c", "s/b c")]),
+        ("t", true, vec![Entry::dir("t"), Entry::dir("t/sub"), Entry::file("t/sub/\\xff", "non-utf8 name"), Entry::file("t/sub/\\xc3\\xbc", "umlaut"), Entry::file("t/.h", "hidden in t"), Entry::dir("t/empty")]),
+        ("k", true, vec![Entry::dir("k"), Entry::file("k/a", "k/a"), Entry::link("k/lr", "a"), Entry::link("k/la", "{R}/k/a"), Entry::link("k/ld", "nowhere"), Entry::link("k/lup", "../a")]),
+        ("l", false, vec![Entry::file("ltarget", "target of l"), Entry::link("l", "ltarget")]),
+    ];
+    if thorough {
+        v.push(("deep", true, vec![Entry::dir("deep"), Entry::dir("deep/d1"), Entry::dir("deep/d1/d2"), Entry::file("deep/d1/d2/f", "deep f"), Entry::link("deep/d1/up", "../..")]));
+    }
+    v
+}
+
+pub fn scenarios(thorough: bool) -> Vec<Scenario> {
+    let comps = components(thorough);
+    let mut v = vec![];
+    // source selections: every single component, and pairs
+    let mut sels: Vec<Vec<usize>> = (0..comps.len()).map(|i| vec![i]).collect();
+    for i in 0..comps.len() {
+        for j in (i + 1)..comps.len() {
+            if thorough || (i + j) % 2 == 1 {
+                sels.push(vec![i, j]);
+            }
+        }
+    }
+    if thorough {
+        sels.push(vec![0, 4, 6]);
+        sels.push(vec![1, 5, 7]);
+    }
+    let dest_states = ["absent", "file", "emptydir", "earlier", "bystanders", "linktodir"];
+    let spellings = ["plain", "slash-src", "slash-dst", "dot", "abs"];
+    let flagsets = ["-", "-T", "--target-directory"];
+    for d in drivers() {
+        for sel in &sels {
+            for ds in dest_states {
+                for sp in spellings {
+                    for fl in flagsets {
+                        if fl == "-T" && sel.len() > 1 {
+                            continue; // several sources onto one path: outcome undefined
+                        }
+                        let any_dir = sel.iter().any(|&i| comps[i].1);
+                        if sp == "slash-src" && !any_dir {
+                            continue;
+                        }
+                        // thin out the product in the quick tier, deterministically
+                        let h = crate::util::hash_bytes(format!("{}{:?}{}{}{}", d, sel, ds, sp, fl).as_bytes());
+                        let _ = h;
+                        let mut tree: Vec<Entry> = vec![];
+                        for &i in sel {
+                            tree.extend(comps[i].2.clone());
+                        }
+                        match ds {
+                            "file" => tree.push(Entry::file("dst", "existing destination file").mtime(1_200_000_000, 1)),
+                            "emptydir" => tree.push(Entry::dir("dst")),
+                            "earlier" => {
+                                // an earlier copy of the same sources, with content and link texts changed since
+                                tree.push(Entry::dir("dst"));
+                                let mut extra = vec![];
+                                for &i in sel {
+                                    for e in &comps[i].2 {
+                                        if e.path == "ltarget" {
+                                            continue;
+                                        }
+                                        let mut e2 = e.clone();
+                                        e2.path = format!("dst/{}", e.path);
+                                        match &mut e2.kind {
+                                            crate::scen::Kind::File(c) => *c = crate::scen::Content::lit("EARLIER VERSION, longer than the new one"),
+                                            crate::scen::Kind::Symlink(t) => *t = "changed-since".into(),
+                                            _ => {}
+                                        }
+                                        extra.push(e2);
+                                    }
+                                }
+                                tree.extend(extra);
+                            }
+                            "bystanders" => {
+                                tree.push(Entry::dir("dst"));
+                                tree.push(Entry::file("dst/zz-bystander", "leave me").mtime(1_200_000_001, 2).mode(0o600));
+                                tree.push(Entry::dir("dst/zz-dir"));
+                                tree.push(Entry::file("dst/zz-dir/inner", "me too").mtime(1_200_000_002, 3));
+                            }
+                            "linktodir" => {
+                                tree.push(Entry::dir("realdst"));
+                                tree.push(Entry::file("realdst/zz-bystander", "leave me").mtime(1_200_000_001, 2));
+                                tree.push(Entry::link("dst", "realdst"));
+                            }
+                            _ => {}
+                        }
+                        tree.push(Entry::file("outside-bystander", "not involved").mtime(1_200_000_009, 9));
+                        let mut args: Vec<String> = vec!["-r".into(), "--driver".into(), d.into(), "-w".into(), "2".into()];
+                        let spell = |name: &str, is_dir: bool, is_src: bool| -> String {
+                            match sp {
+                                "slash-src" if is_src && is_dir => format!("{}/", name),
+                                "slash-dst" if !is_src => format!("{}/", name),
+                                "dot" => format!("./{}", name),
+                                "abs" => format!("{{R}}/{}", name),
+                                _ => name.to_string(),
+                            }
+                        };
+                        let dst = spell("dst", true, false);
+                        match fl {
+                            "-T" => args.push("-T".into()),
+                            "--target-directory" => {
+                                args.push("--target-directory".into());
+                                args.push(dst.clone());
+                            }
+                            _ => {}
+                        }
+                        for &i in sel {
+                            args.push(spell(comps[i].0, comps[i].1, true));
+                        }
+                        if fl != "--target-directory" {
+                            args.push(dst);
+                        }
+                        let ar: Vec<&str> = args.iter().map(|s| s.as_str()).collect();
+                        let names: Vec<&str> = sel.iter().map(|&i| comps[i].0).collect();
+                        v.push(Scenario::new(&format!("map-{}-[{}]-dst:{}-{}-{}", d, names.join(","), ds, sp, fl), tree, &ar));
+                    }
+                }
+            }
+        }
+        // sources selected by --glob patterns
+        for (pn, pats) in [("star", vec!["s*"]), ("qmark", vec!["?"]), ("two", vec!["a", "s*"]), ("inner", vec!["s/*"]), ("hidden", vec![".*h"]), ("all", vec!["*"])] {
+            for ds in ["absent", "emptydir", "bystanders"] {
+                let mut tree = vec![];
+                for i in [0usize, 3, 4] {
+                    tree.extend(comps[i].2.clone());
+                }
+                tree.push(Entry::file("sx", "also matches s*"));
+                match ds {
+                    "emptydir" => tree.push(Entry::dir("dst")),
+                    "bystanders" => {
+                        tree.push(Entry::dir("dst"));
+                        tree.push(Entry::file("dst/zz-bystander", "leave me").mtime(1_200_000_001, 2));
+                    }
+                    _ => {}
+                }
+                let mut args: Vec<&str> = vec!["-r", "-g", "--driver", d, "-w", "2"];
+                args.extend(pats.iter());
+                args.push("dst");
+                let mut s = Scenario::new(&format!("map-glob-{}-{}-dst:{}", pn, d, ds), tree, &args);
+                // patterns are expanded relative to the working directory; keep dst out of '*'
+                if pn == "all" || pn == "qmark" {
+                    s.cwd = "w".into();
+                    for e in s.tree.iter_mut() {
+                        if !e.path.starts_with("dst") {
+                            e.path = format!("w/{}", e.path);
+                        }
+                    }
+                    s.tree.insert(0, Entry::dir("w"));
+                    let n = s.args.len();
+                    s.args[n - 1] = "../dst".into();
+                }
+                v.push(s);
+            }
+        }
+        // run from a sub-directory, relative paths climbing up
+        let mut tree = vec![Entry::dir("w"), Entry::dir("w/inner")];
+        tree.extend(comps[4].2.iter().cloned().map(|mut e| {
+            e.path = format!("w/{}", e.path);
+            e
+        }));
+        tree.push(Entry::dir("out"));
+        let mut s = Scenario::new(&format!("map-cwd-sub-{}", d), tree, &["-r", "--driver", d, "../s", "../../out"]);
+        s.cwd = "w/inner".into();
+        v.push(s);
+    }
+    v
+}
+
+pub fn run(ctx: &Ctx) -> Report {
+    let mut rep = Report::new(
+        "model_checking",
+        "source selections (single components and pairs: files with plain / space / unicode / hidden names, directories with nested directories, non-UTF-8 names, relative / absolute / dangling / upward links, a link as source) x destination state {absent, file, empty dir, dir holding an earlier copy with changed content and link texts, dir with bystanders, link to a dir} x spelling {plain, trailing slash on source / destination, ./ prefix, absolute} x {-, -T, --target-directory} x both drivers, plus sources selected by --glob patterns and relative paths from a sub-directory; executed by the real binary under P0 and P1; oracle: reference model of cp's mapping rule: exit 0 => the whole sandbox equals the expected tree (kinds, bytes, link texts, nothing unexpected anywhere), and whatever the exit status every entry that is no mapped target is identical before/after; non-trivial = exited 0 on an invocation the model does not classify as rejected, per distinct (scenario, trace)",
+    );
+    let j: Judge = &judge;
+    let sc = scenarios(!ctx.quick());
+    let n = sc.len();
+    let st = scen_batch(ctx, sc, &[Policy::P0, Policy::P1], j);
+    rep.part("mapping scenarios", st, serde_json::json!({"scenarios": n}));
+    rep.assumptions = vec!["out of the alphabet because the property does not define the outcome: two sources mapping onto the same path, sources spelled . or .., a destination inside a source".into()];
+    rep
 }
